@@ -44,4 +44,11 @@ PROPS = {
         "assumptions": ["gorgonia Slice/Transpose/Concat/Repeat are modelled (G/Slice.v, Model/IndexOps.v); in the region where a gorgonia slice has start = end the library reads through an empty view and the model does not predict it (class slice-empty)"],
         "explain": {"C08_ops": "Eval vm_compute in (spec the_case, model the_case, known_class the_case)."},
     },
+    "C03": {
+        "check_modules": ["theories/Check/CheckC03.v"],
+        "theorem": "C03_*",
+        "trusted_base": COMMON_TB + ["Flocq 4.1 IEEE754.Bits/Binary (b32_*/b64_* operations, Bcompare) as the definition of IEEE-754 arithmetic"],
+        "assumptions": ["gorgonia's elementwise kernels are modelled by the scalar functions of Model/Scalar.v; integer division by zero is outside the property and not generated"],
+        "explain": {"C03_ops": "Eval vm_compute in (spec the_case, model optable13 the_case, known_class the_case)."},
+    },
 }
